@@ -215,7 +215,7 @@ class SCSI(object):
 
         :param data: a dict containing the mode page to set
         :param kwargs: a dict with key/value pairs
-                       pf = 0, Page Format flag
+                       pf = 1, Page Format flag
                        sp = 0, Save Pages flag
         :return: a ModeSelect6 instance
         """
@@ -252,7 +252,7 @@ class SCSI(object):
                        llbaa = 0, long LBA accepted can be 0 or 1
                        dbd = 0, disable block descriptor can be 0 or 1.
                        pc = 0, page control field, a value between 0 and 3
-                       alloclen = 0, the max number of bytes allocated for
+                       alloclen = 96, the max number of bytes allocated for
                        the data_in buffer
         :return: a ModeSense10 instance
         """
@@ -268,7 +268,7 @@ class SCSI(object):
 
         :param data: a dict containing the mode page to set
         :param kwargs: a dict with key/value pairs
-                       pf = 0, Page Format flag
+                       pf = 1, Page Format flag
                        sp = 0, Save Pages flag
         :return: a ModeSelect10 instance
         """
